@@ -28,6 +28,7 @@ type RC struct {
 
 	wrappers   map[*FuncInfo]bool
 	sendSites  []*SendSite
+	kindCaller *FuncInfo // see kindsOfExpr: the caller supplying function arguments to a higher-order helper
 	kindCache  map[string][]string
 	epochCl    map[*FuncInfo]bool
 	builderCl  map[*FuncInfo]bool
@@ -67,7 +68,18 @@ func newRC(prog *Program, tier string) *RC {
 	for _, fn := range prog.dbftFuncs() {
 		for _, s := range a.FnSites[fn] {
 			if s.Kind == "call" && s.Target != nil && c.wrappers[s.Target] && s.Call != nil && len(s.Call.Args) >= 1 {
-				ks := c.kindsOfExpr(fn, s.Call.Args[0], 0)
+				// a site inside a higher-order helper walked inline belongs to fn, but its expression lives in the helper:
+				// resolve it there, with fn as the caller that supplies the function arguments
+				encl := c.enclosingFunc(s.Call)
+				c.kindCaller = nil
+				ks := []string{"?"}
+				if encl != nil && encl != fn {
+					c.kindCaller = fn
+					ks = c.kindsOfExpr(encl, s.Call.Args[0], 0)
+					c.kindCaller = nil
+				} else {
+					ks = c.kindsOfExpr(fn, s.Call.Args[0], 0)
+				}
 				c.sendSites = append(c.sendSites, &SendSite{Site: s, Kinds: ks})
 			}
 		}
@@ -214,6 +226,73 @@ func (c *RC) kindsOfExpr(fn *FuncInfo, e ast.Expr, depth int) []string {
 			}
 		}
 		w := &Walker{A: c.A, Fn: fn, info: info}
+		// a call through a function-typed parameter of a higher-order helper: what the caller in question passes
+		if id, ok := fun.(*ast.Ident); ok && c.kindCaller != nil {
+			if v, ok := info.Uses[id].(*types.Var); ok {
+				pidx := -1
+				for j, p := range fn.Params {
+					if p == v {
+						pidx = j
+					}
+				}
+				if pidx >= 0 {
+					resolved := false
+					caller := c.kindCaller
+					cinfo := caller.Pkg.TypesInfo
+					ast.Inspect(caller.Decl.Body, func(n ast.Node) bool {
+						call, ok := n.(*ast.CallExpr)
+						if !ok || pidx >= len(call.Args) {
+							return true
+						}
+						cw := &Walker{A: c.A, Fn: caller, info: cinfo}
+						if cw.staticCallee(call) != fn {
+							return true
+						}
+						var target *FuncInfo
+						switch a := ast.Unparen(call.Args[pidx]).(type) {
+						case *ast.FuncLit:
+							resolved = true
+							ast.Inspect(a.Body, func(m ast.Node) bool {
+								if r, ok := m.(*ast.ReturnStmt); ok && len(r.Results) >= 1 {
+									add(c.kindsOfExpr(caller, r.Results[0], depth+1))
+								}
+								return true
+							})
+						case *ast.Ident:
+							if f, ok := cinfo.Uses[a].(*types.Func); ok {
+								target = c.Prog.Funcs[f.Origin()]
+							}
+						case *ast.SelectorExpr:
+							if sl := cinfo.Selections[a]; sl != nil && sl.Kind() == types.MethodVal {
+								if f, ok := sl.Obj().(*types.Func); ok {
+									target = c.Prog.Funcs[f.Origin()]
+								}
+							}
+						}
+						if target != nil {
+							resolved = true
+							saved := c.kindCaller
+							c.kindCaller = nil
+							ast.Inspect(target.Decl.Body, func(m ast.Node) bool {
+								if _, ok := m.(*ast.FuncLit); ok {
+									return false
+								}
+								if r, ok := m.(*ast.ReturnStmt); ok && len(r.Results) >= 1 {
+									add(c.kindsOfExpr(target, r.Results[0], depth+1))
+								}
+								return true
+							})
+							c.kindCaller = saved
+						}
+						return true
+					})
+					if !resolved {
+						set["?"] = true
+					}
+					break
+				}
+			}
+		}
 		if callee := w.staticCallee(x); callee != nil {
 			key := callee.Name
 			if ks, ok := c.kindCache[key]; ok {
@@ -610,4 +689,18 @@ func thoroughReload(repo, prop string, base []*RuleResult) []*RuleResult {
 		}()
 	}
 	return []*RuleResult{r}
+}
+
+
+// enclosingFunc: the declared function whose body contains n.
+func (c *RC) enclosingFunc(n ast.Node) *FuncInfo {
+	if n == nil {
+		return nil
+	}
+	for _, fn := range c.Prog.sortedFuncs() {
+		if fn.Decl != nil && fn.Decl.Body != nil && fn.Decl.Body.Pos() <= n.Pos() && n.End() <= fn.Decl.Body.End() {
+			return fn
+		}
+	}
+	return nil
 }
